@@ -71,6 +71,7 @@ MUTANTS = [
     ("m11a", "C11", UTILS, "        if isinstance(i, list):\n            children = [(type(obj), obj) for obj in i]\n        elif hasattr(i, \"gengy_init_values\"):", "        if hasattr(i, \"gengy_init_values\") and not getattr(i, \"_x\", False):", "list children skipped again"),
     ("m11b", "C11", UTILS, "            distance_to_term = max(distance_to_term, dist + abs_adjust + list_adjust)", "            distance_to_term = max(distance_to_term, dist + abs_adjust)", "distance not incremented per level"),
     ("m11c", "C11", UTILS, "            for k, v in thisway.items():\n                types_this_way[k].extend(v)", "            for k, v in thisway.items():\n                if k not in types_this_way:\n                    types_this_way[k].extend(v)", "type index misses repeated types below a node"),
+    ("m11d", "C11", UTILS, "            abs_adjust = 0 if not is_abstract(t) or not g.expansion_depthing else g.abstract_dist_to_t[t][type(c)]", "            abs_adjust = 0 if not is_abstract(t) or not g.expansion_depthing else max(g.abstract_dist_to_t[t][type(c)] - 1, 1)", "expansion depthing: a production two rules below its declared type counts one expansion only"),
     ("m12a", "C12", PROB, "        return a.maximizing_aggregate > b.maximizing_aggregate", "        return a.maximizing_aggregate >= b.maximizing_aggregate", "ties count as improvements"),
     ("m12b", "C12", GE + "evaluation/tracker.py", "        elif problem.is_better(individual.get_fitness(problem), self.best_individual.get_fitness(problem)):\n            self.best_individual = individual\n            is_best = True", "        elif problem.is_better(individual.get_fitness(problem), self.best_individual.get_fitness(problem)):\n            is_best = True", "best individual not updated on improvement"),
     ("m12c", "C12", GE + "algorithms/random_search.py", "        return self.tracker.get_best_individual()", "        return ind", "random search returns the last individual"),
